@@ -354,11 +354,11 @@ theorem collectChr_T (cfg : Cfg) (rs sk : Bool) (c : Chr) (fs : FS) :
 
 theorem collect_pool {cfg : Cfg} (rs sk : Bool) (sched : List Chr)
     {fs : FS} (h : J cfg fs) (hrg : fs.has .rgLock = true) (hnl : sk = false → fs.has .lock = false)
-    (hnc : rs = false → sk = false → ∀ c ∈ cfg.chrs, fs.has (.collected c) = false) :
+    (hnc : rs = false → sk = false → ∀ c ∈ cfg.chrs, fs.has (.collected c) = false) (href : refOK cfg fs = true) :
     Good cfg fs (poolStage (collectChr fixed cfg rs sk) cfg.chrs sched fs) ∧
       (sk = false → ∀ c ∈ cfg.chrs, (poolStage (collectChr fixed cfg rs sk) cfg.chrs sched fs).fs.has (.collected c) = true) ∧
       (∀ p, (∀ c ∈ cfg.chrs, Tcol c p = false) → (poolStage (collectChr fixed cfg rs sk) cfg.chrs sched fs).fs p = fs p) := by
-  have hs : ∀ c ∈ cfg.chrs, _ := fun c hc => collectChr_stage rs sk h hc hrg hnl (fun e e' => hnc e e' c hc)
+  have hs : ∀ c ∈ cfg.chrs, _ := fun c hc => collectChr_stage rs sk h hc hrg hnl (fun e e' => hnc e e' c hc) href
   obtain ⟨g, prod, fr⟩ := pool_good (T := Tcol) Tcol_disjoint (fun _ => rfl) Tcol_guard (collectChr fixed cfg rs sk) cfg.chrs sched h
     (fun c hc => (hs c hc).1)
     (fun c hc e he => collectChr_T cfg rs sk c fs e (runActs_evs_sub _ _ e he))
@@ -369,11 +369,11 @@ theorem collect_pool {cfg : Cfg} (rs sk : Bool) (sched : List Chr)
 
 theorem construct_pool {cfg : Cfg} (rs : Bool) (sched : List Chr)
     {fs : FS} (h : J cfg fs) (hsv : SavesOK cfg fs)
-    (hnp : rs = false → ∀ c ∈ cfg.chrs, fs.has (.processed c) = false) :
+    (hnp : rs = false → ∀ c ∈ cfg.chrs, fs.has (.processed c) = false) (href : refOK cfg fs = true) :
     Good cfg fs (poolStage (constructChr fixed cfg rs) cfg.chrs sched fs) ∧
       (∀ c ∈ cfg.chrs, (poolStage (constructChr fixed cfg rs) cfg.chrs sched fs).fs.has (.processed c) = true) ∧
       (∀ p, (∀ c ∈ cfg.chrs, Tcon c p = false) → (poolStage (constructChr fixed cfg rs) cfg.chrs sched fs).fs p = fs p) := by
-  have hs : ∀ c ∈ cfg.chrs, _ := fun c hc => constructChr_stage rs h hc hsv (fun e => hnp e c hc)
+  have hs : ∀ c ∈ cfg.chrs, _ := fun c hc => constructChr_stage rs h hc hsv (fun e => hnp e c hc) href
   obtain ⟨g, prod, fr⟩ := pool_good (T := Tcon) Tcon_disjoint (fun _ => rfl) Tcon_guard (constructChr fixed cfg rs) cfg.chrs sched h
     (fun c hc => (hs c hc).1)
     (fun c hc e he => by
